@@ -44,6 +44,19 @@ Theorem C14_at_once : forall inp s i w t old, reachable inp s ->
 Proof. intros inp s i w t old R. apply flush_at_once. now apply reachable_Inv. Qed.
 Print Assumptions C14_at_once.
 
+(** ... and it IS answered at once: from that state the Rflush gets written by server steps alone
+    (no backend call has to return, no other request has to move except the holder of sendMu). *)
+Theorem C14_at_once_answered : forall inp s i w t old, reachable inp s ->
+  pc s i = RRun w -> nth_error inp i = Some (FReq t (KFlush old)) ->
+  (old = t \/ forall j k, j < i -> nth_error inp j = Some (FReq old k) -> running (pc s j) = false) ->
+  exists ls s', forallb progress_label ls = true /\ run inp ls s = Some s' /\ In (i, rflush_reply) (replies s').
+Proof.
+  intros inp s i w t old R Hp Hf Hc. pose proof (reachable_Inv inp s R) as I.
+  destruct (flush_completes inp s i w t old I Hp Hf Hc) as (ls & s' & H1 & H2 & H3).
+  exists ls, s'. repeat split; auto. apply (I_rep inp s' (run_Inv inp ls s s' I H2)). exact H3.
+Qed.
+Print Assumptions C14_at_once_answered.
+
 (** A flush waits only for a request received before it: the wait-for relation is acyclic in
     every reachable state (two flushes naming each other cannot block each other). *)
 Theorem C14_waits_only_for_earlier : forall inp s i c, reachable inp s -> waits_for s i c -> c < i.
